@@ -176,6 +176,21 @@ pub fn start_watchdog(hang_file: Option<std::path::PathBuf>) {
       let cur = CURRENT.lock().unwrap().clone();
       if let Some((t0, case_json)) = cur {
          if t0.elapsed().as_secs() >= HANG_LIMIT_S {
+            // spinning (CPU time keeps growing) or asleep? A process that is *blocked* got stuck on a
+            // real (std / OS) lock that a descheduled simulated task holds: the simulator cannot model
+            // such a lock, so this is reported as a limitation of the harness (exit 2), not as a
+            // verdict about the code.
+            let cpu0 = process_cpu_ticks();
+            std::thread::sleep(std::time::Duration::from_secs(5));
+            let cpu1 = process_cpu_ticks();
+            if cpu1.saturating_sub(cpu0) < 100 {
+               eprintln!("harness limitation: execution blocked on an unmodelled OS-level lock held across a scheduling point");
+               println!("REPLAY-JSON {}", serde_json::json!({"class": "blocked-on-unmodelled-lock", "detail": "the simulated process is asleep on a std/OS lock that a descheduled simulated task holds", "hash": 0}));
+               if let Some(f) = &hang_file {
+                  let _ = std::fs::write(f.with_extension("blocked.json"), &case_json);
+               }
+               std::process::exit(4);
+            }
             match &hang_file {
                Some(f) => {
                   let _ = std::fs::write(f, case_json);
@@ -192,6 +207,17 @@ pub fn start_watchdog(hang_file: Option<std::path::PathBuf>) {
          }
       }
    });
+}
+
+/// user + system CPU time of this process in clock ticks (Linux /proc/self/stat fields 14, 15)
+fn process_cpu_ticks() -> u64 {
+   let stat = std::fs::read_to_string("/proc/self/stat").unwrap_or_default();
+   // the command name (field 2) is parenthesised and may contain spaces
+   let rest = stat.rsplit(')').next().unwrap_or("");
+   let f: Vec<&str> = rest.split_whitespace().collect();
+   let utime: u64 = f.get(11).and_then(|x| x.parse().ok()).unwrap_or(0);
+   let stime: u64 = f.get(12).and_then(|x| x.parse().ok()).unwrap_or(0);
+   utime + stime
 }
 
 pub fn watch(case: &Case) { *CURRENT.lock().unwrap() = Some((std::time::Instant::now(), serde_json::to_string(case).unwrap())); }
